@@ -16,6 +16,11 @@ const (
 	stIncConc        = 10 // sn.IncreaseConcurrency()
 	stAddCount       = 11 // sn.AddCount(event, n)                        args: event, n
 	stDecConc        = 12 // sn.DecreaseConcurrency()
+	stLookupFast     = 70 // GetResourceNode(resource): the read-locked lookup
+	stLock           = 71 // rnsMux.Lock()
+	stDeferUnlock    = 72 // defer rnsMux.Unlock()
+	stNewNode        = 73 // NewResourceNode(resource, resourceType)     args: resourceType
+	stStoreNode      = 74 // resNodeMap[resource] = node                 args: node
 )
 
 func init() {
@@ -44,6 +49,22 @@ func init() {
 			Hints: statHints, Acts: statActs, Effects: []string{"handledCounter.Add("}},
 		target{Dir: "core/stat", Func: "Slot.OnCompleted", Name: "stat_OnCompleted",
 			Hints: statHints, Acts: statActs},
+		// ---- stat.GetOrCreateResourceNode: double-checked lookup by NAME; the node found is returned whatever
+		// classification the caller passes.  Nodes are references; the two map reads enter as found_fast /
+		// found_locked, the classification of a node (should the code read it) as type_of <node> ----
+		target{Dir: "core/stat", Func: "GetOrCreateResourceNode", Name: "stat_GetOrCreateResourceNode",
+			RefTypes: []string{"*ResourceNode"},
+			RefCalls: map[string]hint{"ResourceType": {"type_of", "int32"}},
+			Hints: map[string]hint{
+				"resNodeMap[resource]": {"found_locked", "iface"},
+				"resourceType":         {"resource_type", "int32"},
+				"len(resNodeMap)":      {"map_len", "int"}},
+			Stores: map[string]act{"resNodeMap[resource]": {Tag: stStoreNode, Keep: []int{0}}},
+			Acts: map[string]act{
+				"GetResourceNode": {Tag: stLookupFast, Ret: hint{"found_fast", "iface"}},
+				"rnsMux.Lock":     {Tag: stLock},
+				"defer":           {Tag: stDeferUnlock},
+				"NewResourceNode": {Tag: stNewNode, Keep: []int{1}, Ret: hint{"fresh", "iface"}}}},
 		// ---- the three record* helpers: nil guard, counters, gauge ----
 		target{Dir: "core/stat", Func: "Slot.recordPassFor", Name: "stat_recordPassFor", Acts: nodeActs},
 		target{Dir: "core/stat", Func: "Slot.recordBlockFor", Name: "stat_recordBlockFor", Acts: nodeActs},
@@ -104,11 +125,11 @@ func init() {
 		entry("chain_Entry_recover", target{Lit: 1, Acts: map[string]act{"ctx.SetError": {Tag: chSetError},
 			"recover": {Tag: chRecover, Ret: hint{"panic_val", "iface"}}}}),
 		// ONE iteration of each loop
-		entry("chain_Entry_prepare_step", target{LoopBody: 1, LoopAny: true,
+		entry("chain_Entry_prepare_step", target{LoopBody: 1, LoopAny: true, CanonIn: true,
 			Acts: map[string]act{"<range>.Prepare": {Tag: chPrepare}}}),
-		entry("chain_Entry_check_step", target{LoopBody: 2, LoopAny: true,
+		entry("chain_Entry_check_step", target{LoopBody: 2, LoopAny: true, CanonIn: true,
 			Acts: map[string]act{"<range>.Check": {Tag: chCheck, Ret: hint{"check_res", "iface"}}}}),
-		entry("chain_Entry_stat_step", target{LoopBody: 3, LoopAny: true,
+		entry("chain_Entry_stat_step", target{LoopBody: 3, LoopAny: true, CanonIn: true,
 			Acts: map[string]act{"<range>.OnEntryPassed": {Tag: chOnPassed}, "<range>.OnEntryBlocked": {Tag: chOnBlocked, Keep: []int{1}}}}),
 		// ---- SlotChain.EntryPassedOnPanic ----
 		target{Dir: "core/base", Func: "SlotChain.EntryPassedOnPanic", Name: "chain_EntryPassedOnPanic",
@@ -116,13 +137,13 @@ func init() {
 			Acts: map[string]act{"defer": {Tag: chDefer}, "ctx.RuleCheckResult.ResetToPass": {Tag: chResetToPass},
 				"NewTokenResultPass": {Tag: chNewPass, Ret: hint{"new_pass", "iface"}}},
 			LoopMarks: map[int]act{1: {Tag: chLoopStat}}},
-		target{Dir: "core/base", Func: "SlotChain.EntryPassedOnPanic", Name: "chain_EntryPassedOnPanic_step", LoopBody: 1, LoopAny: true,
+		target{Dir: "core/base", Func: "SlotChain.EntryPassedOnPanic", Name: "chain_EntryPassedOnPanic_step", LoopBody: 1, LoopAny: true, CanonIn: true,
 			Hints: chainHints, RefTypes: refs, Stores: stores,
 			Acts: map[string]act{"<range>.OnEntryPassed": {Tag: chOnPassed}}},
 		// ---- SlotChain.exit: nothing for a nil / entry-less / blocked context, else OnCompleted of every statistic slot ----
 		target{Dir: "core/base", Func: "SlotChain.exit", Name: "chain_exit",
 			Hints: chainHints, LoopMarks: map[int]act{1: {Tag: chLoopStat}}, Acts: map[string]act{"defer": {Tag: chDefer}}},
-		target{Dir: "core/base", Func: "SlotChain.exit", Name: "chain_exit_step", LoopBody: 1, LoopAny: true,
+		target{Dir: "core/base", Func: "SlotChain.exit", Name: "chain_exit_step", LoopBody: 1, LoopAny: true, CanonIn: true,
 			Hints: chainHints, Acts: map[string]act{"<range>.OnCompleted": {Tag: chOnCompleted}}},
 		// ---- what "blocked" means: TokenResult.IsBlocked, EntryContext.IsBlocked (nil result = not blocked) ----
 		target{Dir: "core/base", Func: "TokenResult.IsBlocked", Name: "tokenResult_IsBlocked"},
@@ -198,7 +219,7 @@ func init() {
 		// the function run by the Once: defer, error of this exit, handlers, chain exit
 		exit("entry_Exit_once", target{Lit: 1, LoopMarks: map[int]act{1: {Tag: exLoopHandlers}}}),
 		// ONE iteration of the handler loop: a handler's error does not stop the loop
-		exit("entry_Exit_handler_step", target{Lit: 1, LoopBody: 1, LoopAny: true,
+		exit("entry_Exit_handler_step", target{Lit: 1, LoopBody: 1, LoopAny: true, CanonIn: true,
 			Acts: map[string]act{"<range>": {Tag: exHandler, Ret: hint{"handler_err", "iface"}}}}),
 		// its deferred function: recover, exited := 1, context back to the pool - in that order
 		exit("entry_Exit_deferred", target{Lit: 2}),
